@@ -17,6 +17,7 @@ type gen struct {
 	replica int
 	httpDn  map[int]bool // nodes whose HTTP endpoint is currently unreachable
 	kinds   string
+	queue   []func(in *inst) event // pending events of a scenario script
 }
 
 func (g *gen) initEvent() event {
@@ -213,8 +214,92 @@ type wk struct {
 var weights = []wk{{"C", 30}, {"T", 14}, {"Ac", 14}, {"Ap", 8}, {"N", 10}, {"M", 3}, {"D", 3}, {"R", 3}, {"F", 3},
 	{"X", 2}, {"O", 1}, {"B", 6}, {"K", 2}, {"P", 5}}
 
+// scenario scripts: event orders that walk the coordinator through a whole migration / balance /
+// decommission; every step still comes from the PRNG and may be interleaved with random events
+func (g *gen) has(k string) bool { return strings.Contains(g.kinds, k) }
+
+func (g *gen) script(in *inst) {
+	r := g.r
+	check := func(in *inst) event { return event{"C", []string{"1", "0", "", ""}} }
+	tick := func(d int) func(in *inst) event {
+		return func(in *inst) event { return event{"T", []string{fmt.Sprint(d)}} }
+	}
+	conv := func(withRm bool) func(in *inst) event {
+		return func(in *inst) event { return g.converge(in, withRm) }
+	}
+	allUp := func(in *inst) event {
+		for k := range g.httpDn {
+			g.httpDn[k] = false
+		}
+		return event{"N", []string{joinInts(g.allNodes())}}
+	}
+	loseReplica := func(in *inst) event {
+		in.reg.mu.Lock()
+		nodes := append([]string{}, in.reg.info.RaftNodes...)
+		in.reg.mu.Unlock()
+		st := in.coord.VerifState()
+		cur := map[int]bool{}
+		for _, n := range st.DataNodes {
+			cur[kOf(n)] = true
+		}
+		if len(nodes) > 0 {
+			k := kOf(nodes[r.Pick(len(nodes))])
+			delete(cur, k)
+			if r.Chance(0.8) {
+				g.httpDn[k] = true
+			}
+		}
+		var l []int
+		for k := range cur {
+			l = append(l, k)
+		}
+		sort.Ints(l)
+		return event{"N", []string{joinInts(l)}}
+	}
+	switch r.Pick(3) {
+	case 0: // a replica's node fails; migrate, finish the removal, replace
+		g.queue = []func(in *inst) event{conv(true), loseReplica, check, tick(18), conv(true), check, conv(false), tick(6), check,
+			tick(18), check, conv(false), check, tick(18), check}
+	case 1: // stabilise, then balance rounds
+		if !g.has("B") {
+			return
+		}
+		bal := func(in *inst) event { return event{"B", []string{""}} }
+		g.queue = []func(in *inst) event{allUp, conv(false), check, check, bal, conv(false), bal, conv(false), tick(6), check, check, bal,
+			conv(false), check, bal}
+	default: // decommission a node that holds a replica
+		if !g.has("K") || !g.has("P") {
+			return
+		}
+		mark := func(in *inst) event {
+			in.reg.mu.Lock()
+			nodes := append([]string{}, in.reg.info.RaftNodes...)
+			in.reg.mu.Unlock()
+			k := 1 + r.Pick(g.m)
+			if len(nodes) > 0 && r.Chance(0.8) {
+				k = kOf(nodes[r.Pick(len(nodes))])
+			}
+			for n := range in.coord.VerifState().RemovingNodes {
+				k = kOf(n)
+			}
+			return event{"K", []string{fmt.Sprint(k)}}
+		}
+		proc := func(in *inst) event { return event{"P", []string{""}} }
+		g.queue = []func(in *inst) event{allUp, conv(false), check, mark, proc, conv(false), proc, conv(false), tick(6), check, proc,
+			conv(false), proc, proc, proc}
+	}
+}
+
 func (g *gen) next(in *inst) event {
 	r := g.r
+	if len(g.queue) > 0 && r.Chance(0.85) {
+		f := g.queue[0]
+		g.queue = g.queue[1:]
+		return f(in)
+	}
+	if len(g.queue) == 0 && r.Chance(0.12) {
+		g.script(in)
+	}
 	tot := 0
 	for _, w := range weights {
 		if strings.Contains(g.kinds, w.kind[:1]) {
